@@ -265,9 +265,9 @@ def cases(tier):
             cs.append(dict(name=f"demelimit.n{n}.l{limit}", fn=h_demelimit, params=dict(n=n, limit=limit), weight=n, **R))
     shapes = [([2], 0), ([2], 2), ([1, 2], 1), ([2, 2], 2), ([2, 2], 3)] if tier == "quick" else \
         [([2], 0), ([3], 1), ([2], 2), ([1, 2], 1), ([2, 2], 2), ([2, 2], 3), ([1, 1, 2], 2), ([2, 2, 1], 3)]
-    for L in (1, 2):
-        cs.append(dict(name=f"levellimit.maybe_nan.L{L}", fn=h_levellimit, params=dict(offered=[2, 1], existing=1, L=L, maybe_nan=True),
-                       **dict(R, profile="fp"), weight=6))
+    # (a possibly-NaN candidate is NOT part of the case list: NaN objective values are outside every claim - NaN is pyhms' own "not yet
+    #  evaluated" marker - and on the real code worse_than(nan, nan) is a coin flip, so 'ind > first_rejected' for a NaN candidate that is
+    #  itself the first rejected one is random; the harness parameter maybe_nan exists for experiments only)
     for offered, existing in shapes:
         for L in (1, 2, 3):
             for distinct in (False, True):
